@@ -72,11 +72,19 @@ def judge(w, spec, plan, opts, mode, V, C, truth_mod):
             V('uneven-iterations', 'counts-iterations', layer=lname,
               started=d['started'], mode=mode)
             continue
-        it_tests = n_started // rep
-        it_F = (len(d['F']) + len(d['U'])) // rep
-        it_E = len(d['E']) // rep
-        it_S = d['S'] // rep + len(nofact)
-        for (t, f, e, s) in ran_lines:
+        its = d.get('iters') or []
+        for itn, (t, f, e, s) in enumerate(ran_lines):
+            # the n-th summary line of a layer belongs to iteration n
+            if itn < len(its):
+                it_tests = its[itn]['tests']
+                it_F = its[itn]['F']
+                it_E = its[itn]['E']
+                it_S = its[itn]['S'] + len(nofact)
+            else:
+                it_tests = it_F = it_E = 0
+                it_S = len(nofact)
+            if len({(x['F'], x['E'], x['S']) for x in its}) > 1:
+                C('iteration_dependent_summaries')
             C('ran_lines_checked')
             ok = (t in (it_tests, it_tests + len(nofact)) and f == it_F and
                   e in (it_E, it_E + nimp) and s == it_S)
@@ -91,14 +99,20 @@ def judge(w, spec, plan, opts, mode, V, C, truth_mod):
                   facts={'tests': it_tests, 'nofact_skips': len(nofact),
                          'failures': it_F, 'errors': it_E, 'skipped': it_S,
                          'import_failures': nimp}, mode=mode)
-        sumT += it_tests
-        sumT_alt += it_tests + len(nofact)
+        # totals: the tests of one iteration / of the last iteration; the
+        # failure, error and skip events of all iterations (or of one, when
+        # every iteration is alike - leniency of DESIGN 2/C12)
+        alike = len({(x['tests'], x['F'], x['E'], x['S']) for x in its}) <= 1
+        last = its[-1] if its else {'tests': 0, 'F': 0, 'E': 0, 'S': 0}
+        sumT += last['tests']
+        sumT_alt += last['tests'] + len(nofact)
         sumF += len(d['F']) + len(d['U'])
         sumE += len(d['E'])
         sumS += d['S'] + len(nofact) * rep
-        sumF_it += it_F
-        sumE_it += it_E
-        sumS_it += it_S
+        sumF_it += last['F'] if alike else len(d['F']) + len(d['U'])
+        sumE_it += last['E'] if alike else len(d['E'])
+        sumS_it += (last['S'] + len(nofact)) if alike else \
+            d['S'] + len(nofact) * rep
     nlf = len(T.layer_failures)
     if info['total'] is not None:
         C('totals_checked')
@@ -175,7 +189,18 @@ def run_case(case):
     plan = gen.layer_fault_plan(rng, spec, p_su=0.08, p_td=0.1)
     opts = {'verbose': rng.randint(0, 3)}
     if rng.random() < 0.25:
-        opts['repeat'] = 2
+        opts['repeat'] = rng.choice([2, 2, 3])
+        if rng.random() < 0.5:
+            # outcomes that differ between the iterations
+            dyn = ['fail', 'error', 'setup_error', 'teardown_error',
+                   'body_teardown_error', 'cleanup_error', 'skip_body']
+            for tid, ts, layer, lvl, m, node in vworld.iter_tests(spec):
+                if ts['kind'] == 'pass' and rng.random() < 0.4:
+                    k = rng.choice(dyn)
+                    plan.setdefault('tests', {})[tid] = {
+                        'kind': 'pass', 'kinds_seq': rng.choice([
+                            [k, 'pass'], ['pass', k], ['pass', k, 'pass'],
+                            [k, 'pass', rng.choice(dyn)]])}
     viol = []
     counters = {}
 
